@@ -33,6 +33,47 @@ class TV:
         return 'TV(%r)' % (self.v,)
 
 
+def node_occurrences(nodes, tree_type):
+    """Occurrences in the OWN slots of each given node object (leaf key and
+    value slots, separators); ghosts hold nothing."""
+    cnt = Counter()
+    seen = set()
+    for o in nodes:
+        if id(o) in seen:
+            continue
+        seen.add(id(o))
+        if getattr(o, '_p_state', 0) == -1:
+            continue            # a ghost owns no keys or values
+        st = o.__getstate__()
+        if st is None:
+            continue
+        if type(o) is tree_type:
+            # (a node in the embedded 1-tuple form owns nothing itself: the
+            # keys belong to its bucket object, reached through _firstbucket)
+            if len(st) == 2:
+                for x in st[0][1::2]:
+                    cnt[id(x)] += 1
+        else:
+            for x in st[0]:
+                cnt[id(x)] += 1
+    return cnt
+
+
+def reachable_nodes(c, is_tree):
+    out = [c]
+    if not is_tree:
+        return out
+    st = c.__getstate__()
+    if st is None or len(st) == 1:
+        return out
+    for ch in st[0][0::2]:
+        if type(ch) is type(c):
+            out.extend(reachable_nodes(ch, True))
+        else:
+            out.append(ch)
+    return out
+
+
 def occurrences(c, is_mapping, is_tree):
     """Counter(id -> times the object is referenced from node states)."""
     cnt = Counter()
@@ -75,12 +116,48 @@ class Ledger:
             for i in range(len(p)):
                 yield p, i
 
-    def snapshot(self, containers):
-        """containers: list of (container, is_mapping, is_tree)."""
+    def snapshot(self, containers, extra_nodes=None, tree_type=None):
+        """containers: list of (container, is_mapping, is_tree).
+        extra_nodes: further live node objects (e.g. everything a data
+        manager's cache still holds: unlinked buckets stay alive there)."""
         gc.collect()
         occ = Counter()
-        for c, m, t in containers:
-            occ.update(occurrences(c, m, t))
+        if extra_nodes is not None:
+            nodes = list(extra_nodes)
+            for c, m, t in containers:
+                nodes.extend(reachable_nodes(c, t))
+            # close under child and next pointers: an unlinked bucket that is
+            # still cached keeps its (possibly never stored) successors alive
+            seen = set(id(o) for o in nodes)
+            todo = list(nodes)
+            o = more = st = x = nx = None
+            while todo:
+                o = todo.pop()
+                if getattr(o, '_p_state', 0) == -1:
+                    continue
+                more = []
+                if type(o) is tree_type:
+                    st = o.__getstate__()
+                    if st is not None and len(st) == 2:
+                        more = list(st[0][0::2]) + [st[1]]
+                    elif st is not None:
+                        more = [o._firstbucket]
+                else:
+                    nx = getattr(o, '_next', None)
+                    if nx is not None:
+                        more = [nx]
+                for x in more:
+                    if id(x) not in seen:
+                        seen.add(id(x))
+                        nodes.append(x)
+                        todo.append(x)
+            del todo, seen
+            o = more = st = x = nx = None   # (locals would hold references)
+            occ = node_occurrences(nodes, tree_type)
+            del nodes
+        else:
+            for c, m, t in containers:
+                occ.update(occurrences(c, m, t))
         rc = {}
         for p, i in self._objs():
             rc[(id(p), i)] = sys.getrefcount(p[i])
